@@ -534,6 +534,10 @@ class KTHierarchyPropagator:
         """
         rhot = DensityMatrixEvolution(timeaxis=self.timeaxis, rhoi=rhoi)
         
+        # every run starts from an empty hierarchy; the ADOs left by
+        # a previous run must not enter the new one
+        self.hy.reset_ados()
+        
         if free_hierarchy:
             
             # first act with lifting superoperators
